@@ -91,6 +91,16 @@ class C10(Check):
 
     def run_case(self, case, sc, stats=None):
         p = case["prog"]
+        if p.get("classes"):
+            # termination filter: generated method calls may recurse without bound through virtual dispatch; the reference
+            # model discards those (and anything else it does not define) before the implementation is run
+            from .. import ref_class, ref_classic
+            try:
+                ref_class.run_reference(p)
+            except ref_classic.Undocumented:
+                if stats is not None:
+                    stats.count("discarded_by_reference_filter")
+                return None
         base = None
         nt = False
         for order in case["perms"]:
